@@ -897,3 +897,86 @@ def check_named_params_forwarded(ctx: Ctx, qual, callee_suffix, rule="FORWARD"):
                f"`{U(c)[:90]}` does not hand on {missing}: the option is accepted and silently ignored, so the analysis runs with the callee's default "
                "(e.g. tracking by overlap although method='distance' was requested)")
     return 1
+
+
+def check_param_not_written(ctx: Ctx, qual, param, rule="EFFECT"):
+    """``qual`` does not write through ``param`` (an array of the caller): neither directly nor through a name that may share its
+    memory — `np.ravel(x)`, `x.ravel()`, `x.reshape(…)`, `np.asarray(x)`, `x.astype(…, copy=False)`, `x.flat`, a slice — by an
+    in-place operator, an item assignment or an `out=` argument"""
+    m = ctx.model
+    if not m.has_func(qual):
+        return 0
+    fi = m.func(qual)
+    VIEWS = {"ravel", "reshape", "asarray", "asanyarray", "squeeze", "view", "atleast_1d", "transpose", "astype"}
+    shares = {param}
+    for _ in range(3):
+        for st in ast.walk(fi.node):
+            if isinstance(st, ast.Assign) and len(st.targets) == 1 and isinstance(st.targets[0], ast.Name):
+                v = st.value
+                # peel view-producing calls
+                ok = False
+                while True:
+                    if isinstance(v, ast.Call) and (U(v.func).split(".")[-1] in VIEWS):
+                        if U(v.func).split(".")[-1] == "astype" and not any(k.arg == "copy" and isinstance(k.value, ast.Constant) and k.value.value is False for k in v.keywords):
+                            break
+                        v = v.func.value if isinstance(v.func, ast.Attribute) and U(v.func.value) not in ("np", "numpy") else (v.args[0] if v.args else None)
+                        if v is None:
+                            break
+                        continue
+                    if isinstance(v, ast.Subscript):
+                        v = v.value
+                        continue
+                    if isinstance(v, ast.Attribute) and v.attr in ("flat", "T", "real"):
+                        v = v.value
+                        continue
+                    ok = isinstance(v, ast.Name) and v.id in shares
+                    break
+                if ok:
+                    shares.add(st.targets[0].id)
+    bad = None
+    for st in ast.walk(fi.node):
+        if isinstance(st, ast.AugAssign):
+            r = st.target
+            while isinstance(r, (ast.Subscript, ast.Attribute)):
+                r = r.value
+            if isinstance(r, ast.Name) and r.id in shares:
+                bad = bad or st
+        elif isinstance(st, ast.Assign):
+            for t in st.targets:
+                if isinstance(t, ast.Subscript):
+                    r = t
+                    while isinstance(r, (ast.Subscript, ast.Attribute)):
+                        r = r.value
+                    if isinstance(r, ast.Name) and r.id in shares:
+                        bad = bad or st
+        elif isinstance(st, ast.Call):
+            o = next((k.value for k in st.keywords if k.arg == "out"), None)
+            if isinstance(o, ast.Name) and o.id in shares:
+                bad = bad or st
+    ctx.decide(bad is None, rule, f"{qual}:{param}-readonly", (fi, bad) if bad is not None else fi, f"`{param}` (the caller's array) is only read",
+               f"`{U(bad)[:70] if bad is not None else ''}` writes through `{param}` or a name that shares its memory ({', '.join(sorted(shares - {param})) or param}): for contiguous input "
+               "(a one-dimensional field) the caller's image is modified in place, and what is compared with the returned threshold afterwards is no longer the image that was analysed")
+    return 1
+
+
+def check_arrays_not_filtered(ctx: Ctx, qual, rule="TOTAL"):
+    """the histogram arrays of the otsu rule keep one entry per bin: dropping bins by a mask (`counts[counts > 0]`) leaves a single
+    entry for a constant image, the between-class array is empty and the arg-max raises"""
+    m = ctx.model
+    if not m.has_func(qual):
+        return 0
+    fi = m.func(qual)
+    bad = None
+    for st in ast.walk(fi.node):
+        if isinstance(st, ast.Assign):
+            vals = st.value.elts if isinstance(st.value, ast.Tuple) else [st.value]
+            for v in vals:
+                if isinstance(v, ast.Subscript) and isinstance(v.value, ast.Name) and not isinstance(v.slice, (ast.Slice, ast.Constant, ast.UnaryOp)):
+                    sl = v.slice
+                    if isinstance(sl, ast.Compare) or (isinstance(sl, ast.Name) and any(isinstance(d, ast.Assign) and len(d.targets) == 1 and isinstance(d.targets[0], ast.Name) and d.targets[0].id == sl.id
+                                                                                        and isinstance(d.value, (ast.Compare, ast.UnaryOp, ast.BoolOp)) for d in ast.walk(fi.node))):
+                        bad = bad or st
+    ctx.decide(bad is None, rule, f"{qual}:bins-kept", (fi, bad) if bad is not None else fi, "every histogram bin keeps its entry",
+               f"`{U(bad)[:70] if bad is not None else ''}` drops histogram bins by a mask: for a constant image one bin is left, the between-class variance array is empty and its arg-max raises "
+               "ValueError — locating droplets in a constant image with the 'otsu' rule aborts")
+    return 1
